@@ -153,6 +153,16 @@ def replay(ctx, o):
     if '_want' in m and isinstance(m['_want'], list):
         w = q2f(m['_want']); g = out[m['_k']]
         return abs(g - w) > 1e-9 * max(abs(g), abs(w), 1e-300), 'native result %r, definition %r' % (g, w)
+    if key.startswith('C05/det/'):
+        # any determinant law: the native Determinant of the model matrix against the exact Leibniz value (the laws fail only if this value is wrong for some matrix; the triangular / product / swapped variants are tried too)
+        import numpy as np
+        tests = [A, [[A[i][j] if j >= i else 0.0 for j in range(n)] for i in range(n)], [A[1], A[0]] + A[2:] if n >= 2 else A, [[float((i + 2) * (j + 1) % 5 + (i == j) * 3) for j in range(n)] for i in range(n)]]
+        for T in tests:
+            rt = native_la(ctx, 60, T)
+            if rt['status'] != 'ok': return True, 'native Determinant(%s): %s' % (T, rt['status'])
+            want = float(np.linalg.det(np.array(T))) if n > 0 else 1.0
+            if abs(rt['out'][0] - want) > 1e-9 * max(1.0, abs(want)): return True, 'native Determinant(%s) = %r, numpy gives %r' % (T, rt['out'][0], want)
+        return False, 'native Determinant agrees with numpy on the model matrix and its triangular / swapped variants'
     if key == 'C05/inverse/multiplier-bounded':
         r2 = native_la(ctx, 62, A, read_globals=('libphysica_verif_inverse_max_multiplier',))
         if r2['status'] != 'ok': return False, 'native Inverse did not return'
